@@ -214,6 +214,8 @@ fn smh_join<F: num::Float + rand_distr::uniform::SampleUniform + std::fmt::Debug
     let mut rng = rng_from(seed);
     let ids = fresh_ids(&mut rng, n, 0);
     let mut sk = SuperMinHash::<F, u64, FnvHasher>::new(m, Default::default());
+    let mut single = SuperMinHash::<F, u64, FnvHasher>::new(m, Default::default());
+    let reuse_singles = rng.random_range(0..2) == 0;
     let mut model = vec![f64::INFINITY; m];
     let mut nops = 0;
     let mut pos = 0;
@@ -226,8 +228,20 @@ fn smh_join<F: num::Float + rand_distr::uniform::SampleUniform + std::fmt::Debug
         }
         sk.sketch_slice(&chunk).unwrap();
         for d in &ids[pos..pos + k] {
-            let mut s1 = SuperMinHash::<F, u64, FnvHasher>::new(m, Default::default());
-            s1.sketch(d).unwrap();
+            // single-item sketches from a new sketcher or from one sketcher reused through reinit
+            let fresh;
+            let s1 = if reuse_singles {
+                single.reinit();
+                single.sketch(d).unwrap();
+                &single
+            } else {
+                fresh = {
+                    let mut t = SuperMinHash::<F, u64, FnvHasher>::new(m, Default::default());
+                    t.sketch(d).unwrap();
+                    t
+                };
+                &fresh
+            };
             for (pp, v) in s1.get_hsketch().iter().enumerate() {
                 let v = v.to_f64().unwrap();
                 if v < model[pp] {
@@ -338,6 +352,56 @@ pub fn run(rep: &mut Report) {
                     }
                 }
                 Err(pn) => rep.violation("C05/panic", "smh", format!("panic: {}", pn), case),
+            }
+        }
+    }
+    // ---- targeted search (f32): items one of whose values sits exactly on an integer (r + j rounded to j + 1) would be
+    // counted in the wrong level; pair each such item with many second items and compare with the join of singles
+    if rep.want("smh-f32-boundary") {
+        let seed = subseed(rep.seed, "C05/f32b", &[]);
+        let nscan: u64 = rep.tier.pick(400_000, 4_000_000);
+        for m in [16usize, 64, 128] {
+            let found: Vec<u64> = (0..64u64)
+                .into_par_iter()
+                .flat_map_iter(|c| {
+                    let mut rng = rng_from(mix(&[seed, m as u64, c]));
+                    let mut out = Vec::new();
+                    let mut s1 = SuperMinHash::<f32, u64, FnvHasher>::new(m, Default::default());
+                    for _ in 0..nscan / 64 / 3 {
+                        let d = fresh_ids(&mut rng, 1, 0)[0];
+                        s1.reinit();
+                        s1.sketch(&d).unwrap();
+                        if s1.get_hsketch().iter().any(|v| v.fract() == 0. && *v >= 1.) {
+                            out.push(d);
+                        }
+                    }
+                    out
+                })
+                .collect();
+            rep.evaluations += nscan / 3;
+            rep.count("f32_boundary.items_scanned", nscan / 3);
+            rep.count("f32_boundary.items_with_integral_value", found.len() as u64);
+            for first in found.iter().take(40) {
+                let mut rng = rng_from(mix(&[seed, *first]));
+                let single = |d: u64| -> Vec<f32> {
+                    let mut t = SuperMinHash::<f32, u64, FnvHasher>::new(m, Default::default());
+                    t.sketch(&d).unwrap();
+                    t.get_hsketch().clone()
+                };
+                let sf = single(*first);
+                for _ in 0..3000 {
+                    let second = fresh_ids(&mut rng, 1, 0)[0];
+                    let mut t = SuperMinHash::<f32, u64, FnvHasher>::new(m, Default::default());
+                    t.sketch(first).unwrap();
+                    t.sketch(&second).unwrap();
+                    let ss = single(second);
+                    rep.evaluations += 1;
+                    let bad = (0..m).find(|&p| t.get_hsketch()[p].to_bits() != sf[p].min(ss[p]).to_bits());
+                    if let Some(p) = bad {
+                        rep.violation("C05/smh-not-the-join", "smh-f32-boundary", format!("SuperMinHash<f32> m={}: sketch of [{}, {}] holds {} at position {} but the minimum over the two single-item sketches is {}", m, first, second, t.get_hsketch()[p], p, sf[p].min(ss[p])), json!({"m": m, "items": [first, second]}));
+                        break;
+                    }
+                }
             }
         }
     }
